@@ -64,10 +64,14 @@ fn seq_case(case: u64, rng: &mut Rng, rep: &mut Report) {
                 deletes_hit += 1;
             }
         }
+        // a fresh reader must show the last commit at ANY time (uncommitted work, and merges of
+        // committed segments, never change what is published): observe after every commit-like
+        // operation and at random points in between
         let observe = matches!(
             op,
             Op::Commit | Op::PrepCommit { .. } | Op::Rollback | Op::Reopen { .. }
-        ) || i + 1 == ops.len();
+        ) || i + 1 == ops.len()
+            || rng.chance(1, 6);
         if observe {
             let errs = ex.check_committed(true);
             checked += 1;
